@@ -148,7 +148,8 @@ def comp_fn(a, tier):
         made.append(1)
         return object()
 
-    steps = [("pub", "late", late, "late", [RT[1]])]
+    # after the publication: the component's own OPTIONAL lookups (sync and async) of what it just published
+    steps = [("pub", "late", late, "late", [RT[1]]), ("optnowait", "optnowait", RT[1], "late"), ("opt", "optawait", RT[1], "late")]
     if late_factory:
         steps.append(("fac", "latefac", factory, "made", [RT[3]]))
     steps.append(("call", probe))
@@ -184,6 +185,10 @@ def comp_fn(a, tier):
         return FAIL("comp:context-created-inside-a-component-does-not-see-its-parents-resources", f"sub={seen['sub']} owner={seen['owner_now']}", summary)
     if seen["late"] is not late:
         return FAIL("comp:late-publication-invisible", repr(seen["late"]), summary)
+    tnode = 0 if node == 0 else 1
+    for label in ("optnowait", "optawait"):
+        if env.values.get((tnode, label)) is not late:
+            return FAIL(f"comp:optional-lookup-in-the-component-disagrees-with-the-other-lookup-paths:{label}", repr(env.values.get((tnode, label))), summary)
     if late_factory and (isinstance(seen["fac"], Exception) or len(made) != 1):
         return FAIL("comp:late-factory-invisible", repr(seen["fac"]), summary)
     if seen["owner_after"]:
